@@ -177,14 +177,15 @@ Proof.
   unfold try_restarted. destruct (get s u0) as [a|] eqn:Ea; [|intros H; inversion H; subst; apply fr_refl].
   destruct (a_children a); [|intros H; inversion H; subst; apply fr_refl].
   destruct (a_st a) eqn:Est; try (intros H; inversion H; subst; apply fr_refl).
+  destruct (provide s (a_tok a)) as [s0 inst] eqn:Ep. intros H.
+  apply (fr_trans s s0); [apply fr_same_actors; unfold provide in Ep; inversion Ep; subst; reflexivity|]. revert H.
   apply (bind_rel fr); [apply fr_trans| |].
   - intros s1 o1 p1 E. eapply fr_handle; exact E.
   - intros s1 s2 o2 p2. apply (bind_rel fr); [apply fr_trans| |].
     + intros sa oa pa E. eapply fr_handle; exact E.
-    + intros sa sb ob pb. destruct (provide sa (a_tok a)) as [s3 inst] eqn:Ep. intros H.
+    + intros sa sb ob pb. intros H.
       eapply fr_trans; [|eapply fr_start_instance; exact H]. eapply fr_trans; [|apply fr_deliver_sys].
-      eapply fr_trans; [|apply Gu_restart].
-      apply fr_same_actors; unfold provide in Ep; inversion Ep; subst; reflexivity.
+      apply Gu_restart.
 Qed.
 Lemma fr_apply_directive s  r d snd s' o p : apply_directive roles s u0 r d snd = (s', o, p) -> fr s s'.
 Proof.
